@@ -169,12 +169,19 @@ class WsRef(WsSendModel):
     """states: handshake -> connected -> closed | handshake -> response_started -> response ->
     httpclosed | handshake -> httpclosed; limbo."""
 
-    def __init__(self) -> None:
+    def __init__(self, offered: tuple = ()) -> None:
         super().__init__()
         self.pending_ctl = False
+        self.offered = tuple(offered)  # subprotocols in the connection scope (what the client advertised)
 
     def key(self) -> tuple:
         return (self.state, self.pending_ctl)
+
+    def env(self, name: str) -> None:
+        """Environment operations: the peer made the server close the WebSocket on its own (message too big): what
+        the application may still send is no longer a matter of this automaton (sends after closure are C03's)."""
+        if name == "c_big" and self.state == "connected":
+            self.state = "limbo"
 
     def allows(self, msg: dict) -> Optional[bool]:
         t = msg.get("type")
@@ -182,6 +189,11 @@ class WsRef(WsSendModel):
         if t == "websocket.accept":
             d = header_defects(msg.get("headers", []))
             if "malformed" in d:
+                return False
+            sub = msg.get("subprotocol")
+            if sub is not None and sub not in self.offered:
+                # the server may only select a subprotocol the client advertised (scope["subprotocols"]; RFC 6455
+                # 4.2.2): any other value can only produce a handshake the client must fail
                 return False
             if limbo or self.state == "response_started":
                 return None
